@@ -662,6 +662,10 @@ def shard(arg):
         if rng.random() < 0.1:
             o['depth'] = 5
             o['width'] = 3
+        if i % 4 == 1 or opts.get('stress'):
+            # runs of adjacent character data: CDATA sections next to each other / to text / to references, empty
+            # sections, `]]>` split over two sections (gen_xml._gen_run); counters doc:cdata-*
+            o['cdata_runs'] = 0.35 if i % 4 == 1 else opts['stress']
         if i % 8 == 3:
             # xmlns:xml="http://www.w3.org/XML/1998/namespace" on some elements (inside `nsDeclOK` since the
             # hypothesis was weakened; the flattener must drop the declaration and keep `xml:` usable)
@@ -715,7 +719,7 @@ def shard(arg):
             corr.add_enc(t, enc, {'kind': 'enc', 'text': t, 'enc': enc}, tag='-border')
     # source documents without HTML entities through the reader (single quotes, hex references, spacing)
     for i in range(ndocs // 4):
-        doc = gen_xml.gen_doc(rng, html_entities=False)
+        doc = gen_xml.gen_doc(rng, html_entities=False, **({'cdata_runs': 0.35} if i % 2 else {}))
         text = gen_xml.write_doc(doc)
         corr.add_text(text, {'kind': 'read', 'text': text}, tag='-source')
     # accept/reject agreement of the Lean reader and expat on damaged texts.  ASCII only: the reader does not
@@ -818,15 +822,19 @@ def run(ctx):
     res.rule = ('generated well-formed documents (nested / re-bound / undeclared default namespaces, several prefixes per URI, '
                 'mixed content, references, comments, PIs, CDATA, declaration, doctype) and builder trees from arbitrary qualified '
                 'names, each rendered unencoded and in utf-8, ascii, latin-1, utf-16 and re-read by expat; non-trivial = document '
-                'with a re-bound/undeclared/aliased namespace, namespaced attribute, CDATA or reference (distinct by construct set '
+                'with a re-bound/undeclared/aliased namespace, namespaced attribute, CDATA (every fourth document with runs of '
+                'adjacent character data: CDATA sections next to each other, to text and to references, empty sections, "]]>" '
+                'split over two sections) or reference (distinct by construct set '
                 'and size class) or tree with more than one namespace (distinct by content)')
     res.samples = res.samples[:6]
     return res
 
 
 def search(ctx, res, broken):
-    """failing-input search: the disagreeing cases first (through the oracle on the real code),
-    then a larger seeded budget of documents and trees biased to namespace-heavy shapes"""
+    """failing-input search: the disagreeing cases first (through the oracle on the real code; an event sequence
+    of the correspondence-only streams is written out as an XML document first, `events_to_doc`), then a larger
+    seeded budget of documents and trees: half of the shards with the ordinary mix (namespace-heavy), half with
+    every document full of adjacent character data (`stress`: the parser layer's seams)"""
     found = []
     for d in res.disagreements[:200]:
         case = d.get('case') or {}
@@ -835,10 +843,61 @@ def search(ctx, res, broken):
             found.append(f)
     if found:
         return found
-    args = [(ctx.seed + 1000 + i, i, 700, 300, 0, {}) for i in range(16)]
+    args = [(ctx.seed + 1000 + i, i, 700, 300 if i % 2 == 0 else 0, 0, {'stress': 0.5} if i % 2 else {})
+            for i in range(16)]
     for r in pmap('harness.props.c02', 'shard', args):
         found.extend(r.failures)
     return found
+
+
+def _xml_clean(s):
+    return ''.join(c for c in s if c in '\t\n' or 0x20 <= ord(c) <= 0xd7ff or 0xe000 <= ord(c) <= 0xfffd
+                   or 0x10000 <= ord(c))
+
+
+def events_to_doc(w):
+    """an arbitrary event sequence (wire form, as generated by `gen_wild`) written out as a well-formed XML
+    document in the ordinary way, keeping as much of its shape as XML allows: elements get plain names and are
+    closed at the end, TEXT is escaped, START_CDATA / END_CDATA become section markers (an END_CDATA without a
+    section open gives an empty section, a START_CDATA inside a section closes it and opens the next), text
+    inside a section that contains `]]>` is split over two sections, comments and PIs are made legal, the rest
+    is dropped.  Independent of genshi's serializer."""
+    out = ['<r>']
+    depth = 0
+    cd = False
+    for e in w:
+        k = str(e[0]) if isinstance(e, list) else str(e)
+        if k == 'SC':
+            out.append(']]><![CDATA[' if cd else '<![CDATA[')
+            cd = True
+        elif k == 'EC':
+            out.append(']]>' if cd else '<![CDATA[]]>')
+            cd = False
+        elif k == 'T':
+            t = _xml_clean(str(e[1])).replace('\r', '')
+            if cd:
+                out.append(t.replace(']]>', ']]]]><![CDATA[>'))
+            else:
+                out.append(t.replace('&', '&amp;').replace('<', '&lt;').replace(']]>', ']]&gt;'))
+        elif cd:
+            continue
+        elif k == 'S':
+            out.append('<e>')
+            depth += 1
+        elif k == 'E':
+            if depth:
+                out.append('</e>')
+                depth -= 1
+        elif k == 'C':
+            t = _xml_clean(str(e[1])).replace('\r', '').replace('--', '- -')
+            out.append('<!--%s-->' % (t + ' ' if t.endswith('-') else t))
+        elif k == 'PI':
+            t = _xml_clean(str(e[2])).replace('\r', '').replace('?>', '? >').lstrip()
+            out.append('<?p%s?>' % (' ' + t if t else ''))
+    if cd:
+        out.append(']]>')
+    out.append('</e>' * depth + '</r>')
+    return ''.join(out)
 
 
 def replay(ctx, case):
@@ -846,15 +905,14 @@ def replay(ctx, case):
     if kind in ('doc', 'tree', 'events', 'bytes-doc'):
         return oracle_case(case)
     if kind == 'wild':
-        # correspondence-only input: judge it by the property if it happens to be in its domain
-        from genshi.core import Stream
+        # correspondence-only input (arbitrary event sequence): outside the property as it stands; judge the
+        # XML document that spells the same sequence
         try:
-            events = evwire.unstream(_json_wire(case['events']))
-            first = gen_xml.canon_events(events)
-            stream = Stream(events)
-            text = _render(stream, None)
-            again = gen_xml.expat_events(text)
+            text = events_to_doc(_json_wire(case['events']))
         except Exception:  # noqa
             return None
-        return None
+        return oracle_case({'kind': 'doc', 'text': text})
+    if kind in ('read', 'enc') and isinstance(case.get('text'), str):
+        # a text of the reader / encode streams: if it is a well-formed document the property speaks about it
+        return oracle_case({'kind': 'doc', 'text': case['text']})
     return None
